@@ -72,7 +72,8 @@ def gen_history(rng):
         "d_wd": {"slope": 0.15, "scale": 0.5, "m_upper": 5.5}, "d_wd2": {"slope": 0.1, "scale": 0.45, "m_upper": 5.0},
         "imf": PowerLawIMF([0.1, 0.5, 1.0, 100], [-0.5, -1.3, -2.5], N0=5e5),
         "imf1": PowerLawIMF([0.1, 0.5, 1.0, 100], [-0.5, -1.3, -2.5]),          # own N0 = 1
-        "nbins": [3, 3, 8], "tout": np.array([3000.0, 12000.0]), "tout1": [9000.0],
+        "nbins": [3, 3, 8], "nbins_d": {"MS": [3, 3, 8], "WD": 4, "BH": 5}, "nbins_d2": {"MS": 12, "WD": 3, "NS": 1, "BH": 4},
+        "tout": np.array([3000.0, 12000.0]), "tout1": [9000.0],
         "fbh": np.array([0.06, 0.08]), "fbh_ok": np.array([0.001, 0.002]), "breaks": [0.1, 0.5, 1.0, 100.0],
     }
     calls = []
@@ -93,7 +94,8 @@ def gen_history(rng):
             if rng.random() < 0.3:
                 args.update(WD_method="linear", WD_kwargs={"$h": rng.choice(["d_wd", "d_wd2"])})
         elif k == "EvolvedMF":
-            args = dict(IMF={"$h": rng.choice(["imf", "imf1"])}, nbins={"$h": "nbins"}, FeH=feh, tout={"$h": rng.choice(["tout", "tout1"])},
+            args = dict(IMF={"$h": rng.choice(["imf", "imf1"])}, nbins={"$h": rng.choice(["nbins", "nbins", "nbins_d", "nbins_d2"])}, FeH=feh,
+                        tout={"$h": rng.choice(["tout", "tout1"])},
                         esc_rate=rng.choice([0, -10.0]), N0=rng.choice([5e5, 2e5]), BH_IFMR_kwargs=rng.choice([{"$h": "d_empty"}, None]),
                         binning_breaks=rng.choice([{"$h": "breaks"}, None]), BH_ret_dyn=rng.choice([1.0, 0.7]))
             if rng.random() < 0.5:
@@ -106,7 +108,7 @@ def gen_history(rng):
                         f_BH=({"$h": rng.choice(["fbh", "fbh_ok"])} if two else 0.001), N0=5e5, strict_BH_target=False,
                         natal_kicks=rng.choice([True, False]), vesc=rng.choice([30, 90]), BH_IFMR_kwargs=rng.choice([{"$h": "d_empty"}, None]))
         else:
-            args = dict(IMF={"$h": rng.choice(["imf", "imf", "imf1"])}, nbins={"$h": "nbins"}, FeH=feh, natal_kicks=False)
+            args = dict(IMF={"$h": rng.choice(["imf", "imf", "imf1"])}, nbins={"$h": rng.choice(["nbins", "nbins", "nbins_d"])}, FeH=feh, natal_kicks=False)
             if rng.random() < 0.6:
                 args["N0"] = rng.choice([2e5, 1e6, 5e5])
             if rng.random() < 0.5:
